@@ -165,30 +165,24 @@ SCAFFOLDS = [
 
 
 def jobs(tier, seed):
+    """quick: one free character from the typographic alphabet per job (a path costs 10-20 CPU-s: four runs of the core chain, and the
+    smartquotes rule classifies both neighbours of every quote with Unicode punctuation/whitespace classes)."""
     jobs = []
-    k = 2 if tier == "quick" else 3
     tspec = {n: {"alphabet": TYPO} for n in "abcdefgh"}
-    anyspec = {n: {"exclude": "\r\0"} for n in "abcdefgh"}
     for mode in ("smartquotes", "replacements", "both"):
-        for first in TYPO:
-            sp = {kk: dict(v) for kk, v in tspec.items()}
-            sp["a"] = {"alphabet": first}
-            if tier == "quick" and (mode == "both" or (mode == "replacements" and first not in ".-+(c ")):
-                continue
-            jobs.append({"harness": "typo", "params": {"mode": mode, "scaffold": free_doc(k, "\n") if tier == "thorough" else free_doc(k, "\"c\n"), "spec": sp, "quotes": "chars" if (mode == "smartquotes" and tier == "thorough") else None,
-                                                        "name": f"{mode}-{first!r}"}, "weight": 8, "cpu_cap": 2400, "wall_cap": 3600})
+        jobs.append({"harness": "typo", "params": {"mode": mode, "scaffold": ["\"", H("a"), "\" 'd' x", H("a"), "y\n"], "spec": tspec, "quotes": None, "name": f"{mode}-free"},
+                     "weight": 8, "cpu_cap": 2400, "wall_cap": 3600, "path_cap": 120})
         for si, sc in enumerate(SCAFFOLDS):
-            sc2 = sc if tier == "thorough" else [("x" if p == H("b") else p) for p in sc]
-            if tier == "quick" and mode == "both" and si % 2:
+            if si % 2 == (0 if mode == "both" else 1) or (mode == "both" and si % 4):
                 continue
-            symq = mode != "replacements" and (tier == "thorough" or si in (0, 4, 11))
-            jobs.append({"harness": "typo", "params": {"mode": mode, "scaffold": sc2, "spec": anyspec, "quotes": "chars" if symq else None, "name": "ctx"},
-                         "weight": 5, "cpu_cap": 2400, "wall_cap": 3600})
-    for ql in (["<<", ">>", "", ""], ["", "", "'", "''"], ["„", "“", "‚", "‘"], ["'", "'", "\"", "\""]):
-        jobs.append({"harness": "typo", "params": {"mode": "smartquotes", "scaffold": ["\"", H("a"), "\" '", H("b"), "' \"c\"\n"], "spec": tspec, "quotes": "list",
-                                                    "quote_list": ql, "name": "list-form"}, "weight": 6, "cpu_cap": 2400, "wall_cap": 3600})
+            sc2 = [("x" if p == H("b") else p) for p in sc]
+            symq = mode != "replacements" and si in (0, 4)
+            jobs.append({"harness": "typo", "params": {"mode": mode, "scaffold": sc2, "spec": tspec, "quotes": "chars" if symq else None, "name": "ctx"},
+                         "weight": 5, "cpu_cap": 2400, "wall_cap": 3600, "path_cap": 120})
+    for ql in (["<<", ">>", "", ""], ["", "", "'", "''"], ["„", "“", "‚", "‘"]):
+        jobs.append({"harness": "typo", "params": {"mode": "smartquotes", "scaffold": ["\"", H("a"), "\" 'b' \"c\"\n"], "spec": tspec, "quotes": "list",
+                                                    "quote_list": ql, "name": "list-form"}, "weight": 6, "cpu_cap": 2400, "wall_cap": 3600, "path_cap": 120})
     return jobs
-
 
 def thorough_extra(seed):
     jobs = []
